@@ -23,9 +23,16 @@ type Table struct {
 	Size   int     `json:"size"`
 	Fields []Field `json:"fields"`
 }
+type PartRow struct {
+	Part    string `json:"part"`
+	Payload []int  `json:"payload"`
+	Accept  bool   `json:"accept"`
+	Value   []int  `json:"value"`
+}
 type Exported struct {
 	Tables   map[string]Table    `json:"tables"`
 	Grammars map[string][]string `json:"grammars"`
+	Parts    []PartRow           `json:"parts"`
 }
 
 var (
